@@ -93,7 +93,7 @@ Lemma own_view_nowrite i log c0 : (forall w, ~ In (EWrite i w WOk) log) -> own_v
 Proof.
   induction log as [|e log IH]; simpl; auto. intros H.
   assert (IH' : own_view i log c0 = c0) by (apply IH; intros w K; apply (H w); now right).
-  destruct e as [| j w [| |]]; auto.
+  destruct e as [| j w [| |]|]; auto.
   destruct (j =? i) eqn:E; auto. apply Nat.eqb_eq in E. subst. exfalso. apply (H w). now left.
 Qed.
 
@@ -192,7 +192,7 @@ Lemma inv_log_only nr mutc c0 m e :
 Proof.
   intros I Nok Ncall Hp.
   assert (OV : forall i, own_view i (e :: elog m) c0 = own_view i (elog m) c0).
-  { intros i. destruct e as [| j w [| |]]; simpl; auto. exfalso. eapply Nok; eauto. }
+  { intros i. destruct e as [| j w [| |]|]; simpl; auto. exfalso. eapply Nok; eauto. }
   destruct I. constructor; cbn [todo st hs elog]; auto.
   - intros i c H. rewrite OV. auto.
   - intros i w [E|H]; [subst; exfalso; eapply Nok; eauto|eauto].
@@ -441,7 +441,10 @@ Proof.
 Qed.
 
 Lemma inv_step nr mutc c0 m l : Inv nr mutc c0 m -> Inv nr mutc c0 (mstep nr m l).
-Proof. destruct l; [apply inv_call|apply inv_write]. Qed.
+Proof.
+  destruct l; [apply inv_call|apply inv_write|].
+  intros I. cbn [mstep]. apply inv_log_only; auto; discriminate.
+Qed.
 
 Lemma inv_fold nr mutc c0 ls : forall m, Inv nr mutc c0 m -> Inv nr mutc c0 (fold_left (mstep nr) ls m).
 Proof. induction ls as [|l ls IH]; simpl; auto. intros m I. apply IH. now apply inv_step. Qed.
